@@ -256,6 +256,24 @@ func ruleR12_5(w *World, r *Report) {
 			if !isFalse {
 				return
 			}
+			// ... or on which it gave the mutex back first (every way from the acquire to this return unlocks)
+			released, _ := mustReach(acq, func(x ssa.Instruction) bool {
+				if x == ssa.Instruction(ret) {
+					return false
+				}
+				ci, isCall := x.(ssa.CallInstruction)
+				return isCall && calleeName(ci) == "Unlock"
+			}, false)
+			unlockBefore := false
+			for _, uc := range callsNamed(fn, "Unlock") {
+				if reachableFrom(acq, uc.(ssa.Instruction)) && instrDominates(uc.(ssa.Instruction), ret) {
+					unlockBefore = true
+				}
+			}
+			_ = released
+			if unlockBefore {
+				return
+			}
 			paths, _ := reachingLits(fn, nil, ret)
 			for _, p := range paths {
 				failed := false
